@@ -705,7 +705,7 @@ def name_safe(name):
 
 def detect_cases(rng, tier):
     cases = []
-    n_w, n_t, n_n = (2500, 4000, 3000) if tier == 'thorough' else (130, 260, 220)
+    n_w, n_t, n_n = (2500, 4000, 3000) if tier == 'thorough' else (100, 200, 160)
     for fmt in FMTS:      # every format with its plain and adversarial first ids, all transports
         for i in ['s1', 'LOCUS', 'locus1', '##gff-version', '#', 'sugar', '>x', 'STOCKHOLM']:
             cases.append({'op': 'detect', 'fmt': fmt, 'seqs': [[i, 'ACGT', None], ['s2', 'mkv*', 's2 desc']], 'via': rng.choice(DET_VIAS)})
@@ -745,7 +745,7 @@ def init_cases(rng, tier):
     metas = [None, {}, {'id': 'm'}, {'id': ''}, {'id': None}, {'other': 'v'}, {'id': 'm', 'other': 'v'}]
     types = [None, None, 'nt', 'aa', 'NT', 'protein', '']
     datas = ['ACGT', 'acgu', 'ACGU', 'mkv*', 'ACGTX', '', 'N-.', 'acgtryswkmbdhvn', 'ACGTE', 'u', 'Meta', 'meta', 'ac gt', 'ACGT1', 'ACGT*']
-    n = 1500 if tier == 'thorough' else 220
+    n = 1500 if tier == 'thorough' else 150
     for _ in range(n):
         c = {'op': 'init', 'fmt': 'fasta', 'from': rng.choice(['str', 'str', 'seq']),
              'data': rng.choice(datas) if rng.random() < 0.7 else g_res(rng, 30), 'meta': rng.choice(metas), 'type': rng.choice(types)}
@@ -1825,6 +1825,28 @@ def extra_checks(rng, tier, cov):
                    'spec': 'deleting comment/blank lines changes what is read: %r vs %r' % (r1, r2), 'noshrink': True, 'model': None,
                    'wf': True, 'evaluated': False}
     cov['comment_removal_checks'] = n_rm
+    # FASTA files can be concatenated (C01_fasta_concat): read(t1 + t2) = read(t1) + read(t2) for any layout of the two texts
+    n_cc = 0
+    for _ in range(400 if tier == 'thorough' else 50):
+        t1, t2 = g_fasta_text(rng), g_fasta_text(rng)
+        if '\r' in t1 + t2 or not t2.startswith('>'):
+            continue
+        if not t1.endswith('\n'):
+            t1 += '\n'
+
+        def rdf(t):
+            try:
+                return [x[:4] for x in objs(BioBasket.fromfmtstr(t, fmt='fasta'))]
+            except Exception as e:
+                return {'e': type(e).__name__}
+        r1, r2, r12 = rdf(t1), rdf(t2), rdf(t1 + t2)
+        n_cc += 1
+        want = r1 if isinstance(r1, dict) else r2 if isinstance(r2, dict) else r1 + r2
+        if r12 != want:
+            yield {'case': {'op': 'concat', 'fmt': 'fasta', 'text': t1, 'text2': t2}, 'impl': [r1, r2, r12],
+                   'spec': 'reading the concatenation of two FASTA texts gives %r, the parts give %r and %r' % (r12, r1, r2), 'noshrink': True,
+                   'model': None, 'wf': True, 'evaluated': False}
+    cov['fasta_concat_checks'] = n_cc
     n_edge = 0
     try:
         for name, why in _edge_checks():
@@ -1909,7 +1931,9 @@ LEVEL_TEXT = ('Machine-checked Coq theorems about an executable model of the rea
               'and before the first header, and case (C01_fasta_rewrap, C01_wrap_payload, C01_payload_insert, '
               'C01_fasta_leading_skip); deleting every ";" line (and every blank line) of a FASTA file, or every blank / "#" comment / '
               'well-formed "#=G?" line of a Stockholm file, changes nothing of what is read (C01_fasta_comments_removable, '
-              'C01_fasta_blank_comments_removable, C01_stk_comments_removable, C01_stk_plain_comment_noop); "id description" headers are '
+              'C01_fasta_blank_comments_removable, C01_stk_comments_removable, C01_stk_plain_comment_noop); reading the lines of two '
+              'FASTA files one after the other gives the records of the first followed by those of the second, for any layout '
+              '(C01_fasta_concat); "id description" headers are '
               're-written verbatim in any position; mode "a" equals writing '
               'the concatenated basket; the id extractor is idempotent; any FASTA, GFF3+##FASTA or Stockholm text of the reader '
               'domain reaches the fixpoint with the first written text (C01_*_reader_fixpoint); the five sniffers of /repo tried in '
@@ -1951,8 +1975,10 @@ LEVEL_NOTE = ('Trusted: Coq kernel/vm_compute, translator (G_codes, G_c01_io), c
               'iter_(), BioSeq.write / BioSeq.tofmtstr sequence by sequence), '
               'SJSON/GFF feature content (C14/C02), the OS appending bytes in mode "a", archives, BioSeq(mapping with a "meta" key). '
               'Statement coverage of the modelled functions in the quick tier is complete except: def lines (executed at import, '
-              'before measurement), main.py:314-316,403-404 (tool="biopython", Bio not installed), main.py:326 (no sequence plugin '
-              'lacks both read_ and iter_), sjson.py:28,30 (Strand/Defect are str/int subclasses and are serialised natively, '
-              'default() is never called for them), sjson.py:56 (isinstance(cls, (Strand, Defect)) on a class is always False). '
+              'before measurement), main.py read 344-346 / iter_ 268-270 / write 433-434 (tool="biopython", Bio not installed), '
+              'read 356 / iter_ 284 (no sequence plugin lacks both read_ and iter_: C01_plugins_complete), detect 90 (a binary '
+              'plugin with a text handle: no sequence plugin is binary, checked by the translator), sjson.py:28,30 (Strand/Defect are '
+              'str/int subclasses and are serialised natively, default() is never called for them), sjson.py:56 '
+              '(isinstance(cls, (Strand, Defect)) on a class is always False). '
               'All theorems closed under the global context (no axioms).')
 TECHNIQUE = 'Coq proof over an executable model + differential correspondence on generated and corpus cases'
